@@ -35,6 +35,11 @@ impl Command for T {
                 Some("CRASHME") => CommandResult::Crash("handler crashed".to_string()),
                 Some("EXITME") => CommandResult::Exit(None),
                 Some("EXIT0") => CommandResult::Exit(Some("0".to_string())),
+                // the embedder's handler raises the halt flag while the error is being handled
+                Some("HALTME") => {
+                    context.env.halt.store(true, Ordering::SeqCst);
+                    CommandResult::Continue(None)
+                }
                 // a handler may continue with a value of its own: the failing instruction's output stays 'false'
                 _ => if self.aliases.contains(&"with_value".to_string()) { CommandResult::Continue(Some("handled".to_string())) } else { CommandResult::Continue(None) },
             };
@@ -88,7 +93,7 @@ pub fn gen(r: &mut Rng) -> Value {
             _ => "comment",
         };
         let (label, out) = if kind == "pre" || kind == "blank" || kind == "comment" { (Value::Null, Value::Null) } else { (label, out) };
-        let val = match r.below(10) { 0 => "-", 1 => "0", 2 => "7", 3 => "x", 4 => "${v0}", 5 => "-3", 6 => "\\${v0}", 7 => "EXITME", 8 => "EXIT0", _ => "CRASHME" };
+        let val = match r.below(11) { 0 => "-", 1 => "0", 2 => "7", 3 => "x", 4 => "${v0}", 5 => "-3", 6 => "\\${v0}", 7 => "EXITME", 8 => "EXIT0", 9 => "HALTME", _ => "CRASHME" };
         let target = if kind == "gotol" { json!(r.pick(&[":a", ":b", ":c", ":zz", "a", "zz"])) } else { json!(r.below(n + 2).to_string()) };
         // some lines spell the command with a word that is both the name of one command and (registered
         // later) an alias of another: the alias table is consulted first
@@ -271,6 +276,10 @@ pub fn run(input: &Value) -> Option<Value> {
                     if val_arg == "CRASHME" || val_arg == "EXITME" || val_arg == "EXIT0" {
                         outcome = Err(Some(src_line));
                         break;
+                    }
+                    // a flag raised by the handler stops the run at the next instruction boundary
+                    if val_arg == "HALTME" {
+                        halted = true;
                     }
                 }
                 line += 1;
